@@ -305,12 +305,22 @@ def xoutJ (r : Registry) (op : XOp) : XOut Unit → Json
     | .base cop => coutJ r cop o
     | .arith _ => Json.null
 
+/-- the driver's stand-in for the uninterpreted failure detail (WHICH exception a failing query raises): it answers
+"the class a database built from this registry raises"; the harness evaluates that on the real code -/
+def edU (_ : Registry) (_ : Query) : Unit := ()
+
+/-- the outcome of a step plus, for a failing query, the marker of the uninterpreted detail -/
+def youtJ (r : Registry) (op : XOp) (o : XOut Unit × Option Unit) : Json :=
+  match o.2 with
+  | some _ => (xoutJ r op o.1).setObjVal! "detail" (.str "fresh")
+  | none => xoutJ r op o.1
+
 /-- sessions with arithmetic questions -/
 def runX : CState → List XOp → CState × List Json
   | s, [] => (s, [])
   | s, op :: ops =>
-    let (s1, o) := xstep lg arU s op
-    let j := (xoutJ s.reg op o).setObjVal! "changed" (.bool (decide (s1.reg ≠ s.reg)))
+    let (s1, o) := ystep lg arU edU s op
+    let j := (youtJ s.reg op o).setObjVal! "changed" (.bool (decide (s1.reg ≠ s.reg)))
     let (s2, js) := runX s1 ops
     (s2, j :: js)
 
@@ -319,8 +329,8 @@ the step was NOT addressed to changed -/
 def runXN (n : Nat) : (Nat → CState) → List (Nat × XOp) → (Nat → CState) × List Json
   | s, [] => (s, [])
   | s, op :: ops =>
-    let (s1, o) := stepN (xstep lg arU) s op
-    let j := (xoutJ (s op.1).reg op.2 o).setObjVal! "changed" (.bool (decide ((s1 op.1).reg ≠ (s op.1).reg)))
+    let (s1, o) := stepN (ystep lg arU edU) s op
+    let j := (youtJ (s op.1).reg op.2 o).setObjVal! "changed" (.bool (decide ((s1 op.1).reg ≠ (s op.1).reg)))
     let j := j.setObjVal! "others" (.bool ((List.range n).any (fun i => i != op.1 && decide ((s1 i).reg ≠ (s i).reg))))
     let (s2, js) := runXN n s1 ops
     (s2, j :: js)
